@@ -63,20 +63,23 @@ Lemma validate_inv : forall cap15 cap05 cf st b,
     (match parent_of st with
      | None => True
      | Some pb =>
+         h_id (b_hdr b) = h_id (b_hdr pb) + 1 /\
          h_treasury (b_hdr b) + c_pay_atr c = h_treasury (b_hdr pb) + c_pay_treasury c /\
          h_graveyard (b_hdr b) = h_graveyard (b_hdr pb) + c_pay_graveyard c /\
          (match c_gt_index c with
-          | Some _ => h_unpaid (b_hdr b) = 0
+          | Some _ => h_unpaid (b_hdr b) = 0 /\ o_miner (b_orc b) <> 0
           | None => h_unpaid (b_hdr b) = h_total_fees (b_hdr pb)
           end)
      end) /\
     c_rb_slips c = block_rb_slips (b_txs b) /\
     eqb_list sig_eqb (c_rb_hash c) (block_atrs (b_txs b)) = true /\
+    same_inputs (block_atrs (b_txs b)) (c_rebroadcasts c) = true /\
     c_ft_num c <= 1 /\
     (0 < c_ft_num c -> exists f, c_fee_tx c = Some f) /\
+    (c_ft_num c = 0 -> c_fee_tx c = None) /\
     (forall fi expected, c_ft_index c = Some fi -> c_fee_tx c = Some expected ->
        sig_eqb expected (nth (N.to_nat fi) (b_txs b) dflt_tx) = true) /\
-    vsweep (st_utxo st) [] (b_txs b) = true.
+    vsweep cf (st_utxo st) (tip_id st + 1) [] (b_txs b) = true.
 Proof.
   intros cap15 cap05 cf st b H. unfold validate_m in H.
   destruct (no_tx_reject st b); [discriminate|].
@@ -92,28 +95,33 @@ Proof.
   peel H.
   destruct (negb (eqb_list sig_eqb (c_rb_hash c) (block_atrs (b_txs b)))) eqn:Ehash; [discriminate|].
   apply negb_false_iff in Ehash.
+  destruct (negb (same_inputs (block_atrs (b_txs b)) (c_rebroadcasts c))) eqn:Esame; [discriminate|].
+  apply negb_false_iff in Esame.
   destruct (negb (b_merkle_ok b)); [discriminate|].
   destruct (1 <? c_ft_num c) eqn:Eft1; [discriminate|]. apply N.ltb_ge in Eft1.
   match type of H with (if ?c then _ else _) = _ => destruct c eqn:Eft2 end; [discriminate|].
+  match type of H with (if ?c then _ else _) = _ => destruct c eqn:Eft3 end; [discriminate|].
   match type of H with (if negb ?c then _ else _) = _ => destruct c eqn:Efee end; cbn [negb] in H; [|discriminate].
   inversion H as [Hsw]. rewrite Hsw.
   repeat split; auto.
   - (* parent-dependent checks *)
     destruct (parent_of st) as [pb|]; [|exact I].
-    cbn [add bind] in Eprev.
+    cbn [add bind] in Eprev. peel Eprev. cbn [add bind] in Eprev.
     destruct (sub MInf 2112 _ _) as [et| |] eqn:Esub; cbn [bind] in Eprev; try discriminate.
     apply sub_inf_ok in Esub. destruct Esub as [Hle Het].
     peel Eprev. cbn [add bind] in Eprev. peel Eprev.
     destruct (negb (b_work_ok b)); [discriminate|].
-    repeat split.
-    + lia.
-    + lia.
-    + destruct (c_gt_index c).
-      * peel Eprev. assumption.
-      * peel Eprev. assumption.
+    split; [assumption|]. split; [lia|]. split; [lia|].
+    destruct (c_gt_index c).
+    + peel Eprev. destruct (o_miner (b_orc b) =? 0) eqn:Em; [discriminate|].
+      apply N.eqb_neq in Em. split; assumption.
+    + peel Eprev. assumption.
   - (* a fee transaction is expected when one is carried *)
     intros Hpos. destruct (c_fee_tx c) as [f|]; [eauto|].
     apply N.ltb_lt in Hpos. rewrite Hpos in Eft2. discriminate.
+  - (* and carried when one is expected *)
+    intros Hz. destruct (c_fee_tx c) as [f|]; [|reflexivity].
+    rewrite Hz in Eft3. discriminate.
   - (* and it is the expected one *)
     intros fi expected Hfi Hexp. rewrite Hfi, Hexp in Efee.
     destruct (c_gt_index c); [exact Efee | discriminate].
@@ -143,12 +151,12 @@ Qed.
 Definition swept (l : list tx) : list slip :=
   flat_map (fun t => if t_ty t =? TFee then [] else filter valuable (t_from t)) l.
 
-Lemma vsweep_spec : forall u l seen, vsweep u seen l = true -> NoDup seen ->
-  (forall t, In t l -> tx_valid u t = true) /\ NoDup (swept l) /\ (forall x, In x (swept l) -> ~ In x seen).
+Lemma vsweep_spec : forall cf u next l seen, vsweep cf u next seen l = true -> NoDup seen ->
+  (forall t, In t l -> tx_valid cf u next t = true) /\ NoDup (swept l) /\ (forall x, In x (swept l) -> ~ In x seen).
 Proof.
-  intros u. induction l as [|t r IH]; intros seen H Hnd.
+  intros cf u next. induction l as [|t r IH]; intros seen H Hnd.
   - cbn [swept flat_map]. repeat split; try constructor; intros ? [].
-  - cbn [vsweep] in H. destruct (tx_valid u t) eqn:Ev; cbn [negb] in H; [|discriminate].
+  - cbn [vsweep] in H. destruct (tx_valid cf u next t) eqn:Ev; cbn [negb] in H; [|discriminate].
     cbn [swept flat_map]. fold (swept r).
     destruct (t_ty t =? TFee) eqn:Efee.
     + destruct (IH seen H Hnd) as [H1 [H2 H3]]. cbn [app]. repeat split; auto.
@@ -408,28 +416,26 @@ Proof.
 Qed.
 
 (* ---------- the transactions of a plain block by kind ---------- *)
-Lemma plain_kinds : forall t, plain_tx t = true ->
+Lemma plain_kinds : forall t, plain_tx t = true -> is_ty TIssuance t = false ->
   (counts_fee t = true /\ is_ty TATR t = false /\ is_ty TFee t = false) \/
   (counts_fee t = false /\ is_ty TATR t = true /\ is_ty TFee t = false) \/
   (counts_fee t = false /\ is_ty TATR t = false /\ is_ty TFee t = true).
 Proof.
-  intros t H. unfold plain_tx in H. apply andb_prop in H. destruct H as [H _].
-  unfold counts_fee, is_ty.
-  destruct (t_ty t =? TNormal) eqn:E1; [apply N.eqb_eq in E1; try rewrite E1; cbn; tauto|].
-  destruct (t_ty t =? TGolden) eqn:E2; [apply N.eqb_eq in E2; try rewrite E2; cbn; tauto|].
-  destruct (t_ty t =? TATR) eqn:E3; [apply N.eqb_eq in E3; try rewrite E3; cbn; tauto|].
-  destruct (t_ty t =? TFee) eqn:E4; [apply N.eqb_eq in E4; try rewrite E4; cbn; tauto|].
-  cbn in H. discriminate.
+  intros t H Hi. unfold plain_tx in H. apply andb_prop in H. destruct H as [H _].
+  apply negb_true_iff in H. unfold counts_fee, is_ty in *. rewrite H, Hi.
+  destruct (t_ty t =? TFee) eqn:E1; [apply N.eqb_eq in E1; rewrite E1; cbn; tauto|].
+  destruct (t_ty t =? TATR) eqn:E2; cbn; tauto.
 Qed.
 
 Lemma sum_split_plain : forall (f : tx -> N) l, forallb plain_tx l = true ->
+  (forall t, In t l -> is_ty TIssuance t = false) ->
   sumN (map f l) = sumN (map f (filter counts_fee l)) + sumN (map f (filter (is_ty TATR) l))
                    + sumN (map f (filter (is_ty TFee) l)).
 Proof.
-  intros f. induction l as [|t r IH]; intro H; [reflexivity|].
+  intros f. induction l as [|t r IH]; intros H Hi; [reflexivity|].
   cbn [forallb] in H. apply andb_prop in H. destruct H as [Ht Hr].
-  cbn [map filter]. rewrite sumN_cons, (IH Hr).
-  destruct (plain_kinds t Ht) as [[A [B C]]|[[A [B C]]|[A [B C]]]]; rewrite A, B, C; cbn [map]; rewrite ?sumN_cons; lia.
+  cbn [map filter]. rewrite sumN_cons, (IH Hr) by (intros; apply Hi; right; assumption).
+  destruct (plain_kinds t Ht (Hi t (or_introl eq_refl))) as [[A [B C]]|[[A [B C]]|[A [B C]]]]; rewrite A, B, C; cbn [map]; rewrite ?sumN_cons; lia.
 Qed.
 
 (* exactly one transaction of a kind: the index the sweep remembers points at it *)
@@ -473,19 +479,6 @@ Proof.
   induction l1 as [|a r IH]; intros [|b r'] H; cbn [eqb_list] in H; try discriminate; [reflexivity|].
   apply andb_prop in H. destruct H as [H1 H2]. cbn [map]. rewrite !sumN_cons, (IH _ H2).
   destruct (sig_eqb_outs a b H1) as [E _]. lia.
-Qed.
-
-(* ---------- the rebroadcast section balances ---------- *)
-Lemma items_balance : forall mult fpb (items : list (tx * slip)), 1 <= mult ->
-  sumN (map outs_sum (flat_map (fun it => item_rbs (fst it) mult (it_fee fpb it) (snd it)) items))
-  + sumN (map (fun it => item_fee mult (it_fee fpb it) (snd it)) items)
-  = sumN (map (fun it => s_amt (snd it)) items)
-  + sumN (map (fun it => item_pay mult (it_fee fpb it) (snd it)) items).
-Proof.
-  intros mult fpb items Hm. induction items as [|it r IH]; [reflexivity|].
-  cbn [flat_map map]. rewrite map_app, sumN_app, !sumN_cons.
-  pose proof (item_balance (fst it) mult (it_fee fpb it) (snd it) Hm) as Hb.
-  unfold outs_sum in *. lia.
 Qed.
 
 (* ---------- purge of the block that is two windows old ---------- *)
@@ -533,16 +526,16 @@ Qed.
 Lemma find_skip : forall (f : block -> bool) x l, f x = false -> find f (x :: l) = find f l.
 Proof. intros f x l H. cbn [find]. rewrite H. reflexivity. Qed.
 
-Lemma clean_split : forall cap15 cap05 cf st b, clean cap15 cap05 cf st b = true ->
-  Known_C02_special_tx b = false /\ Known_C02_nft_expiring cf st b = false /\
-  Known_C02_cap_branch cap15 cap05 cf st b = false /\ Known_C02_fee_tx_omitted cap15 cap05 cf st b = false /\
-  Known_C02_zero_miner cap15 cap05 cf st b = false /\ Known_C13_expired_input cf b = false /\
-  Known_C13_rebroadcast_input_elsewhere cf b = false /\ Known_C13_id_jump st b = false /\
-  Known_C02_saturated b = false.
+Lemma clean_split : forall cap05 cf st b, clean cap05 cf st b = true ->
+  Known_C02_bound_or_spv b = false /\ Known_C02_nft_expiring cf st b = false /\
+  forallb fits (b_txs b) = true /\ cap05 (parent_treasury st) < U64MAX.
 Proof.
-  intros cap15 cap05 cf st b H. unfold clean in H.
+  intros cap05 cf st b H. unfold clean in H.
   repeat (apply andb_prop in H; destruct H as [H ?]).
   repeat match goal with H : negb _ = true |- _ => apply negb_true_iff in H end.
+  match goal with H : Known_C02_saturated _ _ _ = false |- _ =>
+    unfold Known_C02_saturated in H; apply negb_false_iff in H; apply andb_prop in H; destruct H as [Hf Hc] end.
+  apply N.ltb_lt in Hc.
   repeat split; assumption.
 Qed.
 
@@ -550,65 +543,131 @@ Lemma supply_unfold : forall gp st top, tip st = Some top ->
   supply gp st = wval (h_id (b_hdr top) - gp) (st_utxo st) + reservoirs (b_hdr top).
 Proof. intros gp st top H. unfold supply. rewrite H. reflexivity. Qed.
 
-Lemma accepted_facts : forall cap15 cap05 cf st b,
+Lemma user_tx_counts : forall t, user_tx t = counts_fee t.
+Proof.
+  intro t. unfold user_tx, utxo_checked, counts_fee.
+  destruct (t_ty t =? TFee), (t_ty t =? TSPV), (t_ty t =? TATR), (t_ty t =? TIssuance); reflexivity.
+Qed.
+
+Lemma countb_zero : forall (f : tx -> bool) l, countb f l = 0 -> forall t, In t l -> f t = false.
+Proof.
+  intros f l H t Ht. unfold countb in H. destruct (f t) eqn:E; [|reflexivity].
+  assert (In t (filter f l)) by (apply filter_In; auto).
+  destruct (filter f l); [destruct H0 | cbn [length] in H; lia].
+Qed.
+
+Lemma expiring_on_chain : forall cf st b, expiring_txs cf st b = [] \/
+  exists e, In e (st_chain st) /\ expiring_txs cf st b = b_txs e /\ h_id (b_hdr e) = new_id b - (cf_gp cf + 1).
+Proof.
+  intros cf st b. unfold expiring_txs. destruct (cf_gp cf + 1 <? new_id b); [|auto].
+  unfold block_at. destruct (find _ (st_chain st)) as [e|] eqn:E; [|auto].
+  apply find_some in E. destruct E as [E1 E2]. apply N.eqb_eq in E2. right. exists e. auto.
+Qed.
+
+(* the inputs of the carried rebroadcasts are those of the expected ones *)
+Lemma same_inputs_from : forall E C, eqb_list sig_eqb E C = true -> same_inputs C E = true ->
+  forall t, In t C -> exists e, In e E /\ t_from t = t_from e.
+Proof.
+  induction E as [|e r IH]; intros [|c r'] Hh Hs t Ht; cbn [eqb_list] in Hh; try discriminate; [destruct Ht|].
+  apply andb_prop in Hh. destruct Hh as [_ Hh]. cbn [same_inputs] in Hs. apply andb_prop in Hs. destruct Hs as [Hs1 Hs2].
+  destruct Ht as [Ht|Ht].
+  - subst c. exists e. split; [left; reflexivity|].
+    clear - Hs1. revert Hs1. generalize (t_from e). induction (t_from t) as [|x l IHl]; intros [|y l'] H; cbn [eqb_list] in H; try discriminate; auto.
+    apply andb_prop in H. destruct H as [Hx Hl]. apply slip_eqb_eq in Hx. subst. f_equal. apply IHl. exact Hl.
+  - destruct (IH r' Hh Hs2 t Ht) as [e' [He' Hf]]. exists e'. split; [right; exact He' | exact Hf].
+Qed.
+
+(* everything the theorems need to know about an accepted block outside the three classes *)
+Record Facts (cap15 cap05 : N -> N) (cf : config) (st : state) (b : block)
+             (c : cv) (pb : block) (rest : list block) (r : atr_out) (p : pay_out) : Prop := mkFacts {
+  f_chain : st_chain st = pb :: rest;
+  f_id : new_id b = tip_id st + 1;
+  f_tid : tip_id st = h_id (b_hdr pb);
+  f_gp : cf_gp cf <> 0;
+  f_cv : gcv cap15 cap05 MInf (cf_gp cf) (slip_valid (st_utxo st)) (the_input cf st b) = Ok c;
+  f_hdr : h_total_fees (b_hdr b) = c_total_fees c /\ h_fees_atr (b_hdr b) = c_fees_atr c /\
+          h_fees_new (b_hdr b) = c_fees_new c /\ h_pay_atr (b_hdr b) = c_pay_atr c;
+  f_treasury : h_treasury (b_hdr b) + c_pay_atr c = h_treasury (b_hdr pb) + c_pay_treasury c;
+  f_graveyard : h_graveyard (b_hdr b) = h_graveyard (b_hdr pb) + c_pay_graveyard c;
+  f_unpaid : match c_gt_index c with
+             | Some _ => h_unpaid (b_hdr b) = 0 /\ o_miner (b_orc b) <> 0
+             | None => h_unpaid (b_hdr b) = h_total_fees (b_hdr pb)
+             end;
+  f_fees_new : c_fees_new c = fees_new_of (b_txs b);
+  f_total : c_total_fees c = c_fees_new c + c_fees_atr c;
+  f_gti : c_gt_index c = last_index (is_ty TGolden) 0 (b_txs b) None;
+  f_plain : forall t, In t (b_txs b) -> plain_tx t = true;
+  f_fits : forall t, In t (b_txs b) -> fits t = true;
+  f_noiss : forall t, In t (b_txs b) -> is_ty TIssuance t = false;
+  f_valid : forall t, In t (b_txs b) -> tx_valid cf (st_utxo st) (tip_id st + 1) t = true;
+  f_swept : NoDup (swept (b_txs b));
+  f_feesum : sumN (map outs_sum (filter (is_ty TFee) (b_txs b))) = fee_out_sum (c_fee_tx c);
+  f_feefrom : forall t, In t (b_txs b) -> is_ty TFee t = true -> t_from t = [];
+  f_ubid : forall s, In s (st_utxo st) -> 0 < s_amt s /\ 1 <= s_bid s <= tip_id st;
+  f_ins : forall x, In x (ins (b_txs b)) -> 0 < s_amt x -> In x (st_utxo st);
+  f_nb : txs_no_bound (atr_etxs (cf_gp cf) (the_input cf st b)) = true;
+  f_cap : cap05 (pv (the_input cf st b) h_treasury) < U64MAX;
+  f_atr : atr_section cap05 MInf (cf_gp cf) (slip_valid (st_utxo st)) (the_input cf st b) (c_fees_new c) = Ok r;
+  f_atr_fields : c_fees_atr c = r_fees r /\ c_pay_atr c = r_payout r /\ c_rb_hash c = r_hash r /\
+                 c_rebroadcasts c = r_rbs r /\ c_cap c = r_cap r;
+  f_hash : eqb_list sig_eqb (c_rb_hash c) (block_atrs (b_txs b)) = true;
+  f_atrfrom : forall t, In t (b_txs b) -> is_ty TATR t = true ->
+              exists it, In it (atr_items (cf_gp cf) (slip_valid (st_utxo st)) (the_input cf st b)) /\ t_from t = [snd it];
+  f_pay : exists nonfee, payouts cap15 MInf (the_input cf st b) (c_gt_index c) nonfee = Ok p;
+  f_pay_fields : c_pay_treasury c = p_treasury p /\ c_pay_graveyard c = p_graveyard p /\
+                 c_pay_mining c = p_mining p /\ c_fee_tx c = p_fee_tx p
+}.
+
+Lemma block_facts : forall cap15 cap05 cf st b,
   Inv st -> located b ->
   validate_m cap15 cap05 cf MInf st b = Ok true ->
-  clean cap15 cap05 cf st b = true ->
-  new_id b = tip_id st + 1
-  /\ (forall x, In x (ins (b_txs b)) -> 0 < s_amt x -> In x (st_utxo st))
-  /\ (forall s, In s (st_utxo st) -> 0 < s_amt s /\ 1 <= s_bid s <= tip_id st)
-  /\ (exists pb rest, st_chain st = pb :: rest /\
-       h_unpaid (b_hdr b) = if existsb (is_ty TGolden) (b_txs b) then 0 else h_total_fees (b_hdr pb)).
+  clean cap05 cf st b = true ->
+  exists c pb rest r p, Facts cap15 cap05 cf st b c pb rest r p.
 Proof.
   intros cap15 cap05 cf st b HI Hlocb Hval Hclean.
-  destruct (clean_split _ _ _ _ _ Hclean) as [G1 [G2 [G3 [G4 [G5 [G6 [G7 [G8 G9]]]]]]]].
-  destruct (validate_inv _ _ _ _ _ Hval) as [c [Hcv [Htf [_ [Hprev [_ [Hhash [Hft1 [Hftex [Hftsig Hsweep]]]]]]]]]].
+  destruct (clean_split _ _ _ _ Hclean) as [G1 [G2 [G9 Gcap]]].
+  destruct (validate_inv _ _ _ _ _ Hval) as [c [Hcv [Htf [Hitn [Hprev [_ [Hhash [Hsame [Hft1 [Hftex [Hftnone [Hftsig Hsweep]]]]]]]]]]]].
   pose proof HI as HI'. destruct HI' as [Hids Hnd Hutxo Hloc Hunpaid Hinputs].
   set (gp := cf_gp cf) in *. set (u := st_utxo st) in *. set (txs := b_txs b) in *.
-  (* the new block is the child of the tip *)
-  unfold Known_C13_id_jump in G8. apply negb_false_iff in G8. apply N.eqb_eq in G8.
-  (* the chain has a tip *)
   destruct (st_chain st) as [|pb rest] eqn:Echain; [destruct Hids|].
   assert (Htip : tip st = Some pb) by (unfold tip; rewrite Echain; reflexivity).
   assert (Hpar : parent_of st = Some pb) by exact Htip.
   assert (Htid : tip_id st = h_id (b_hdr pb)) by (unfold tip_id; rewrite Htip; reflexivity).
-  rewrite Hpar in Hprev. destruct Hprev as [Htre [Hgra Hunp]].
-  (* consensus values in closed form *)
-  unfold Known_C02_cap_branch in G3. rewrite Hcv in G3.
-  unfold Known_C02_special_tx in G1. apply negb_false_iff in G1. fold txs in G1.
-  unfold Known_C02_saturated in G9. apply negb_false_iff in G9. fold txs in G9.
+  rewrite Hpar in Hprev. destruct Hprev as [Hid [Htre [Hgra Hunp]]].
+  assert (G8 : new_id b = tip_id st + 1) by (unfold new_id; lia).
+  unfold Known_C02_bound_or_spv in G1. apply negb_false_iff in G1. fold txs in G1.
+  fold txs in G9.
+  assert (Hcapl : cap05 (pv (the_input cf st b) h_treasury) < U64MAX).
+  { unfold parent_treasury in Gcap. rewrite Hpar in Gcap. unfold pv, the_input, cv_input. cbn [i_prev].
+    rewrite Hpar. exact Gcap. }
+  rewrite forallb_forall in G1. rewrite forallb_forall in G9.
   assert (Hnb : txs_no_bound (atr_etxs gp (the_input cf st b)) = true).
   { unfold gp. rewrite expiring_is_atr_etxs. unfold Known_C02_nft_expiring in G2.
     apply negb_false_iff in G2. exact G2. }
   unfold cv_inf, run_cv in Hcv. fold (the_input cf st b) in Hcv. fold gp u in Hcv.
-  destruct (gcv_inf _ _ _ _ _ _ Hcv Hnb G3)
-    as [Hgp [Cfn [Cfa [Cpa [Ctf [Chash [_ [_ [_ [_ [Cftn [Cfti [Cgti [_ [p [nonfee [Hpay [Cpt [Cpg [Cpm Cftx]]]]]]]]]]]]]]]]]]]].
+  destruct (gcv_inf _ _ _ _ _ _ Hcv)
+    as [Hgp [Cfn [Ctf [Cftn [Cfti [Cgti [Citn [[r [Hr [Cfa [Cpa [Chash [Crbs [_ [_ [_ Ccap]]]]]]]]] [p [nonfee [Hpay [Cpt [Cpg [Cpm Cftx]]]]]]]]]]]]]].
   assert (Hitxs : i_txs (the_input cf st b) = txs) by reflexivity.
   rewrite Hitxs in *.
+  destruct (atr_section_balance _ _ _ _ _ _ Hnb Hcapl Hr) as [_ [Hrbs Hrfrom]].
+  (* no issuance after the first block *)
+  assert (Hids' : ids_ok (st_chain st)) by (rewrite Echain; exact Hids).
+  assert (Htip1 : 1 <= tip_id st).
+  { pose proof (chain_ids_le_tip st pb Hids' ltac:(rewrite Echain; left; reflexivity)). unfold bid_of in *. lia. }
+  assert (Hnoiss : forall t, In t txs -> is_ty TIssuance t = false).
+  { apply countb_zero. rewrite <- Citn.
+    assert (E : (1 <? h_id (b_hdr b)) = true) by (apply N.ltb_lt; lia).
+    rewrite E, andb_true_r in Hitn. apply N.ltb_ge in Hitn. lia. }
   (* every transaction is valid, value inputs pairwise distinct *)
-  destruct (vsweep_spec _ _ _ Hsweep (NoDup_nil _)) as [Hvalid [Hndsw _]].
+  destruct (vsweep_spec _ _ _ _ _ Hsweep (NoDup_nil _)) as [Hvalid [Hndsw _]].
   fold txs u in Hvalid, Hndsw.
-  rewrite forallb_forall in G1. rewrite forallb_forall in G9.
-  (* the rebroadcast section *)
-  set (items := atr_items gp (slip_valid u) (the_input cf st b)) in *.
-  set (mult := atr_mult gp (the_input cf st b)) in *.
-  set (fpb := atr_fpb (the_input cf st b)) in *.
-  assert (Hbal := items_balance mult fpb items (atr_mult_ge1 gp (the_input cf st b))).
-  unfold items_sum in Cfa, Cpa. fold items mult fpb in Cfa, Cpa.
-  unfold items_rbs in Chash. fold items mult fpb in Chash.
-  rewrite Chash in Hhash. apply sig_list_outs in Hhash. unfold block_atrs in Hhash. fold txs in Hhash.
-  change (filter (fun t : tx => t_ty t =? TATR) txs) with (filter (is_ty TATR) txs) in Hhash.
   (* the fee transaction *)
   assert (Hfeetx : sumN (map outs_sum (filter (is_ty TFee) txs)) = fee_out_sum (c_fee_tx c)
                    /\ forall t, In t txs -> is_ty TFee t = true -> t_from t = []).
   { unfold countb in Cftn.
-    destruct (filter (is_ty TFee) txs) as [|ft [|ft2 r]] eqn:Ef.
+    destruct (filter (is_ty TFee) txs) as [|ft [|ft2 r0]] eqn:Ef.
     - split.
-      + cbn [map]. rewrite sumN_nil. unfold Known_C02_fee_tx_omitted in G4.
-        unfold cv_inf, run_cv in G4. fold (the_input cf st b) gp u in G4. rewrite Hcv in G4.
-        destruct (c_fee_tx c) as [f|]; [|reflexivity]. cbn [fee_out_sum]. unfold outs_sum.
-        cbn [length] in Cftn. rewrite Cftn in G4. cbn in G4. rewrite andb_true_r in G4.
-        apply N.ltb_ge in G4. lia.
+      + cbn [map length] in *. rewrite sumN_nil. rewrite (Hftnone Cftn). reflexivity.
       + intros t Ht Hty. assert (In t (filter (is_ty TFee) txs)) by (apply filter_In; auto).
         rewrite Ef in H. destruct H.
     - destruct (last_index_unique (is_ty TFee) txs 0 None ft Ef) as [j [Hj Hn]].
@@ -626,151 +685,68 @@ Proof.
         rewrite Ef in Hin. destruct Hin as [Hin|[]]. subst t. auto.
     - cbn [length] in Cftn. rewrite Cftn in Hft1. lia. }
   destruct Hfeetx as [Hfeesum Hfeefrom].
-  (* facts about the slips of the block *)
-  destruct (located_outputs b Hlocb) as [Hndout Hbidout]. unfold outputs in Hndout, Hbidout.
-  fold txs in Hndout, Hbidout. fold (outs txs) in Hndout, Hbidout.
   assert (Hubid : forall s, In s u -> 0 < s_amt s /\ 1 <= s_bid s <= tip_id st).
   { intros s Hs. destruct (Hutxo s Hs) as [Hp [blk [Hb [Hbi _]]]]. split; auto.
     rewrite <- Echain in Hb.
-    assert (Hids' : ids_ok (st_chain st)) by (rewrite Echain; exact Hids).
     pose proof (chain_ids_le_tip st blk Hids' Hb). unfold bid_of in *. lia. }
   assert (Hins_in : forall x, In x (ins txs) -> 0 < s_amt x -> In x u).
   { intros x Hx Hp. unfold ins in Hx. apply in_flat_map in Hx. destruct Hx as [t [Ht Hx]].
     pose proof (Hvalid t Ht) as Hv. unfold tx_valid in Hv.
-    repeat (apply andb_prop in Hv; destruct Hv as [Hv ?]).
+    apply andb_prop in Hv. destruct Hv as [_ Hl]. unfold tx_ledger in Hl.
+    apply andb_prop in Hl. destruct Hl as [_ Hl].
     destruct (is_ty TFee t) eqn:Efee.
     - rewrite (Hfeefrom t Ht Efee) in Hx. destruct Hx.
     - assert (Huc : utxo_checked t = true).
       { unfold utxo_checked. unfold is_ty in Efee. rewrite Efee.
-        destruct (plain_kinds t (G1 t Ht)) as [[A _]|[[_ [A _]]|[_ [_ A]]]].
-        - unfold counts_fee in A. destruct (t_ty t =? TSPV) eqn:E; [|reflexivity].
-          apply N.eqb_eq in E. rewrite E in A. discriminate.
-        - unfold is_ty in A. apply N.eqb_eq in A. rewrite A. reflexivity.
-        - unfold is_ty in A. congruence. }
-      rewrite Huc in *. cbn [negb orb] in *.
-      match goal with H : _ && forallb _ _ = true |- _ => apply andb_prop in H; destruct H as [_ Hall] end.
+        pose proof (G1 t Ht) as Hpl. unfold plain_tx in Hpl. apply andb_prop in Hpl. destruct Hpl as [Hpl _].
+        apply negb_true_iff in Hpl. rewrite Hpl. reflexivity. }
+      rewrite Huc in Hl. cbn [negb orb] in Hl.
+      apply andb_prop in Hl. destruct Hl as [_ Hall].
       rewrite forallb_forall in Hall. specialize (Hall x Hx). unfold slip_valid in Hall.
       apply N.ltb_lt in Hp. rewrite Hp in Hall. apply in_utxo_In. exact Hall. }
-  split; [exact G8|]. split; [exact Hins_in|]. split; [exact Hubid|].
-  exists pb, rest. split; [reflexivity|].
-  rewrite Cgti in Hunp. fold txs.
-  assert (Hli : forall l i acc, match last_index (is_ty TGolden) i l acc with
-                                | Some _ => existsb (is_ty TGolden) l = true \/ acc <> None
-                                | None => existsb (is_ty TGolden) l = false /\ acc = None end).
-  { induction l as [|t r IH]; intros i acc; cbn [last_index existsb].
-    - destruct acc; [right; discriminate | auto].
-    - specialize (IH (i + 1) (if is_ty TGolden t then Some i else acc)).
-      destruct (last_index _ _ r _).
-      + destruct (is_ty TGolden t); [left; reflexivity|]. destruct IH as [IH|IH]; [left; rewrite IH; reflexivity | right; exact IH].
-      + destruct IH as [IH1 IH2]. destruct (is_ty TGolden t); [discriminate|]. rewrite IH1. auto. }
-  specialize (Hli txs 0 None).
-  destruct (last_index (is_ty TGolden) 0 txs None).
-  - destruct Hli as [Hli|Hli]; [rewrite Hli; exact Hunp | congruence].
-  - destruct Hli as [Hli _]. rewrite Hli. exact Hunp.
+  (* the rebroadcasts of the block consume the outputs that leave the window *)
+  assert (Hatrfrom : forall t, In t txs -> is_ty TATR t = true ->
+            exists it, In it (atr_items gp (slip_valid u) (the_input cf st b)) /\ t_from t = [snd it]).
+  { intros t Ht Hty.
+    assert (Hin : In t (block_atrs txs)) by (unfold block_atrs; apply filter_In; auto).
+    rewrite Crbs, Hrbs, <- Chash in Hsame.
+    destruct (same_inputs_from _ _ Hhash Hsame t Hin) as [e [He Hf]].
+    rewrite Chash in He. destruct (Hrfrom e He) as [it [Hit Hfe]]. exists it. split; auto. congruence. }
+  exists c, pb, rest, r, p.
+  constructor; auto.
+  exists nonfee. exact Hpay.
 Qed.
 
 Theorem supply_step : forall cap15 cap05 cf st b,
   Inv st -> located b ->
   validate_m cap15 cap05 cf MInf st b = Ok true ->
-  clean cap15 cap05 cf st b = true ->
+  clean cap05 cf st b = true ->
   supply (cf_gp cf) (wind cf st b) = supply (cf_gp cf) st.
 Proof.
   intros cap15 cap05 cf st b HI Hlocb Hval Hclean.
-  destruct (clean_split _ _ _ _ _ Hclean) as [G1 [G2 [G3 [G4 [G5 [G6 [G7 [G8 G9]]]]]]]].
-  destruct (validate_inv _ _ _ _ _ Hval) as [c [Hcv [Htf [_ [Hprev [_ [Hhash [Hft1 [Hftex [Hftsig Hsweep]]]]]]]]]].
+  destruct (block_facts _ _ _ _ _ HI Hlocb Hval Hclean) as [c [pb [rest [r [p F]]]]].
+  destruct F as [Echain G8 Htid Hgp Hcv Htf Htre Hgra Hunp Cfn Ctf Cgti G1 G9 Hnoiss Hvalid Hndsw
+                 Hfeesum Hfeefrom Hubid Hins_in Hnb Hcapl Hr [Cfa [Cpa [Chash [Crbs Ccap]]]] Hhash Hatrfrom [nonfee Hpay]
+                 [Cpt [Cpg [Cpm Cftx]]]].
+  destruct (clean_split _ _ _ _ Hclean) as [_ [G2 _]].
   pose proof HI as HI'. destruct HI' as [Hids Hnd Hutxo Hloc Hunpaid Hinputs].
   set (gp := cf_gp cf) in *. set (u := st_utxo st) in *. set (txs := b_txs b) in *.
-  (* the new block is the child of the tip *)
-  unfold Known_C13_id_jump in G8. apply negb_false_iff in G8. apply N.eqb_eq in G8.
-  (* the chain has a tip *)
-  destruct (st_chain st) as [|pb rest] eqn:Echain; [destruct Hids|].
   assert (Htip : tip st = Some pb) by (unfold tip; rewrite Echain; reflexivity).
   assert (Hpar : parent_of st = Some pb) by exact Htip.
-  assert (Htid : tip_id st = h_id (b_hdr pb)) by (unfold tip_id; rewrite Htip; reflexivity).
-  rewrite Hpar in Hprev. destruct Hprev as [Htre [Hgra Hunp]].
-  (* consensus values in closed form *)
-  unfold Known_C02_cap_branch in G3. rewrite Hcv in G3.
-  unfold Known_C02_special_tx in G1. apply negb_false_iff in G1. fold txs in G1.
-  unfold Known_C02_saturated in G9. apply negb_false_iff in G9. fold txs in G9.
-  assert (Hnb : txs_no_bound (atr_etxs gp (the_input cf st b)) = true).
-  { unfold gp. rewrite expiring_is_atr_etxs. unfold Known_C02_nft_expiring in G2.
-    apply negb_false_iff in G2. exact G2. }
-  unfold cv_inf, run_cv in Hcv. fold (the_input cf st b) in Hcv. fold gp u in Hcv.
-  destruct (gcv_inf _ _ _ _ _ _ Hcv Hnb G3)
-    as [Hgp [Cfn [Cfa [Cpa [Ctf [Chash [_ [_ [_ [_ [Cftn [Cfti [Cgti [_ [p [nonfee [Hpay [Cpt [Cpg [Cpm Cftx]]]]]]]]]]]]]]]]]]]].
-  assert (Hitxs : i_txs (the_input cf st b) = txs) by reflexivity.
-  rewrite Hitxs in *.
-  (* every transaction is valid, value inputs pairwise distinct *)
-  destruct (vsweep_spec _ _ _ Hsweep (NoDup_nil _)) as [Hvalid [Hndsw _]].
-  fold txs u in Hvalid, Hndsw.
-  rewrite forallb_forall in G1. rewrite forallb_forall in G9.
-  (* the rebroadcast section *)
+  rewrite Echain in Hids, Hunpaid.
   set (items := atr_items gp (slip_valid u) (the_input cf st b)) in *.
-  set (mult := atr_mult gp (the_input cf st b)) in *.
-  set (fpb := atr_fpb (the_input cf st b)) in *.
-  assert (Hbal := items_balance mult fpb items (atr_mult_ge1 gp (the_input cf st b))).
-  unfold items_sum in Cfa, Cpa. fold items mult fpb in Cfa, Cpa.
-  unfold items_rbs in Chash. fold items mult fpb in Chash.
-  rewrite Chash in Hhash. apply sig_list_outs in Hhash. unfold block_atrs in Hhash. fold txs in Hhash.
+  destruct (atr_section_balance _ _ _ _ _ _ Hnb Hcapl Hr) as [Hbal _]. fold items in Hbal.
+  rewrite <- Chash, <- Cfa, <- Cpa in Hbal.
+  apply sig_list_outs in Hhash. unfold block_atrs in Hhash. fold txs in Hhash.
   change (filter (fun t : tx => t_ty t =? TATR) txs) with (filter (is_ty TATR) txs) in Hhash.
-  (* the fee transaction *)
-  assert (Hfeetx : sumN (map outs_sum (filter (is_ty TFee) txs)) = fee_out_sum (c_fee_tx c)
-                   /\ forall t, In t txs -> is_ty TFee t = true -> t_from t = []).
-  { unfold countb in Cftn.
-    destruct (filter (is_ty TFee) txs) as [|ft [|ft2 r]] eqn:Ef.
-    - split.
-      + cbn [map]. rewrite sumN_nil. unfold Known_C02_fee_tx_omitted in G4.
-        unfold cv_inf, run_cv in G4. fold (the_input cf st b) gp u in G4. rewrite Hcv in G4.
-        destruct (c_fee_tx c) as [f|]; [|reflexivity]. cbn [fee_out_sum]. unfold outs_sum.
-        cbn [length] in Cftn. rewrite Cftn in G4. cbn in G4. rewrite andb_true_r in G4.
-        apply N.ltb_ge in G4. lia.
-      + intros t Ht Hty. assert (In t (filter (is_ty TFee) txs)) by (apply filter_In; auto).
-        rewrite Ef in H. destruct H.
-    - destruct (last_index_unique (is_ty TFee) txs 0 None ft Ef) as [j [Hj Hn]].
-      rewrite <- Cfti in Hj.
-      destruct (Hftex ltac:(rewrite Cftn; cbn; lia)) as [f Hf].
-      pose proof (Hftsig _ _ Hj Hf) as Hsig. rewrite N.add_0_l, Nat2N.id, Hn in Hsig.
-      destruct (sig_eqb_outs _ _ Hsig) as [Ho Hfrom].
-      assert (Hfempty : t_from f = []).
-      { rewrite Cftx in Hf. destruct (c_gt_index c) as [gi|] eqn:Egi.
-        - destruct (payouts_gt_inf _ _ _ _ _ Hpay) as [_ [f' [Hf' [_ Hfr]]]]. congruence.
-        - destruct (payouts_nogt_inf _ _ _ _ _ Hpay) as [Hnone _]. congruence. }
-      split.
-      + cbn [map]. rewrite sumN_cons, sumN_nil, Hf. cbn [fee_out_sum]. lia.
-      + intros t Ht Hty. assert (Hin : In t (filter (is_ty TFee) txs)) by (apply filter_In; auto).
-        rewrite Ef in Hin. destruct Hin as [Hin|[]]. subst t. auto.
-    - cbn [length] in Cftn. rewrite Cftn in Hft1. lia. }
-  destruct Hfeetx as [Hfeesum Hfeefrom].
   (* facts about the slips of the block *)
   destruct (located_outputs b Hlocb) as [Hndout Hbidout]. unfold outputs in Hndout, Hbidout.
   fold txs in Hndout, Hbidout. fold (outs txs) in Hndout, Hbidout.
-  assert (Hubid : forall s, In s u -> 0 < s_amt s /\ 1 <= s_bid s <= tip_id st).
-  { intros s Hs. destruct (Hutxo s Hs) as [Hp [blk [Hb [Hbi _]]]]. split; auto.
-    rewrite <- Echain in Hb.
-    assert (Hids' : ids_ok (st_chain st)) by (rewrite Echain; exact Hids).
-    pose proof (chain_ids_le_tip st blk Hids' Hb). unfold bid_of in *. lia. }
-  assert (Hins_in : forall x, In x (ins txs) -> 0 < s_amt x -> In x u).
-  { intros x Hx Hp. unfold ins in Hx. apply in_flat_map in Hx. destruct Hx as [t [Ht Hx]].
-    pose proof (Hvalid t Ht) as Hv. unfold tx_valid in Hv.
-    repeat (apply andb_prop in Hv; destruct Hv as [Hv ?]).
-    destruct (is_ty TFee t) eqn:Efee.
-    - rewrite (Hfeefrom t Ht Efee) in Hx. destruct Hx.
-    - assert (Huc : utxo_checked t = true).
-      { unfold utxo_checked. unfold is_ty in Efee. rewrite Efee.
-        destruct (plain_kinds t (G1 t Ht)) as [[A _]|[[_ [A _]]|[_ [_ A]]]].
-        - unfold counts_fee in A. destruct (t_ty t =? TSPV) eqn:E; [|reflexivity].
-          apply N.eqb_eq in E. rewrite E in A. discriminate.
-        - unfold is_ty in A. apply N.eqb_eq in A. rewrite A. reflexivity.
-        - unfold is_ty in A. congruence. }
-      rewrite Huc in *. cbn [negb orb] in *.
-      match goal with H : _ && forallb _ _ = true |- _ => apply andb_prop in H; destruct H as [_ Hall] end.
-      rewrite forallb_forall in Hall. specialize (Hall x Hx). unfold slip_valid in Hall.
-      apply N.ltb_lt in Hp. rewrite Hp in Hall. apply in_utxo_In. exact Hall. }
   assert (Hsep : separated txs).
   { intros x Hx Hp Ho. pose proof (Hubid x (Hins_in x Hx Hp)). pose proof (Hbidout x Ho).
     unfold new_id in G8. lia. }
   assert (Hswept : filter pos (ins txs) = swept txs).
-  { unfold ins, swept. clear - G1 Hfeefrom. 
+  { unfold ins, swept. clear - G1 Hfeefrom.
     assert (forall l, (forall t, In t l -> In t txs) -> filter pos (flat_map t_from l) =
               flat_map (fun t => if t_ty t =? TFee then [] else filter valuable (t_from t)) l).
     { induction l as [|t r IH]; intro Hsub; [reflexivity|].
@@ -797,55 +773,64 @@ Proof.
   (* the inputs: those of user transactions count, those of rebroadcasts do not *)
   assert (Hinval : wval lo (ins txs) = sumN (map (fun t => sumN (map s_amt (t_from t))) (filter counts_fee txs))).
   { unfold ins. rewrite wval_flat_map.
-    rewrite (sum_split_plain (fun t => wval lo (t_from t)) txs) by (apply forallb_forall; exact G1).
+    rewrite (sum_split_plain (fun t => wval lo (t_from t)) txs) by (try apply forallb_forall; assumption).
     assert (Ha : sumN (map (fun t => wval lo (t_from t)) (filter (is_ty TATR) txs)) = 0).
     { assert (forall l, (forall t, In t l -> In t txs /\ is_ty TATR t = true) ->
                 sumN (map (fun t => wval lo (t_from t)) l) = 0).
-      { induction l as [|t r IH]; intro Hl; [reflexivity|]. cbn [map]. rewrite sumN_cons, IH by (intros; apply Hl; right; assumption).
+      { induction l as [|t r0 IH]; intro Hl; [reflexivity|]. cbn [map]. rewrite sumN_cons, IH by (intros; apply Hl; right; assumption).
         destruct (Hl t (or_introl eq_refl)) as [Ht Hty].
-        rewrite wval_all_out; [lia|]. intros s Hs Hp. unfold counts_in.
-        unfold Known_C13_rebroadcast_input_elsewhere in G7. fold txs in G7.
-        destruct (negb (is_bound s)); [cbn [andb]|reflexivity].
-        destruct (lo <=? s_bid s) eqn:E; [|reflexivity]. exfalso.
-        assert (existsb (fun t => (t_ty t =? TATR) && existsb (fun s => (0 <? s_amt s) && in_new_window cf b s) (t_from t)) txs = true); [|congruence].
-        apply existsb_exists. exists t. split; auto. unfold is_ty in Hty. rewrite Hty. cbn [andb].
-        apply existsb_exists. exists s. split; auto. apply N.ltb_lt in Hp. rewrite Hp. exact E. }
+        destruct (Hatrfrom t Ht Hty) as [it [Hit Hf]]. rewrite Hf.
+        (* the input is an output of the block that leaves the window *)
+        assert (Hold : s_bid (snd it) < lo \/ s_amt (snd it) = 0).
+        { unfold items, atr_items, gp in Hit. rewrite expiring_is_atr_etxs in Hit.
+          destruct (expiring_on_chain cf st b) as [He|[e [Hein [He Heid]]]]; rewrite He in Hit.
+          - destruct Hit.
+          - unfold exp_items in Hit. apply in_flat_map in Hit. destruct Hit as [t0 [Ht0 Hit]].
+            apply in_map_iff in Hit. destruct Hit as [s0 [Hs0 Hf0]]. subst it. cbn [snd].
+            apply filter_In in Hf0. destruct Hf0 as [Hs0 _].
+            assert (Ho : In s0 (outputs e)) by (unfold outputs; apply in_flat_map; eauto).
+            destruct (located_outputs e (Hloc e Hein)) as [_ Hb]. rewrite (Hb s0 Ho), Heid.
+            left. unfold lo, new_id in *. fold gp.
+            pose proof (chain_ids_le_tip st e ltac:(rewrite Echain; exact Hids) Hein) as Hle. unfold bid_of in Hle.
+            rewrite Heid in Hle. unfold new_id in Hle. fold gp in Hle. lia. }
+        rewrite wval_cons, wval_nil. unfold counts_in.
+        destruct Hold as [Hold|Hold].
+        - assert ((lo <=? s_bid (snd it)) = false) by (apply N.leb_gt; exact Hold). rewrite H, andb_false_r. lia.
+        - rewrite Hold. destruct (_ && _); lia. }
       apply H. intros t Ht. apply filter_In in Ht. exact Ht. }
     assert (Hf : sumN (map (fun t => wval lo (t_from t)) (filter (is_ty TFee) txs)) = 0).
     { assert (forall l, (forall t, In t l -> In t txs /\ is_ty TFee t = true) ->
                 sumN (map (fun t => wval lo (t_from t)) l) = 0).
-      { induction l as [|t r IH]; intro Hl; [reflexivity|]. cbn [map]. rewrite sumN_cons, IH by (intros; apply Hl; right; assumption).
+      { induction l as [|t r0 IH]; intro Hl; [reflexivity|]. cbn [map]. rewrite sumN_cons, IH by (intros; apply Hl; right; assumption).
         destruct (Hl t (or_introl eq_refl)) as [Ht Hty]. rewrite (Hfeefrom t Ht Hty). reflexivity. }
       apply H. intros t Ht. apply filter_In in Ht. exact Ht. }
     rewrite Ha, Hf, !N.add_0_r. f_equal. apply map_ext_in. intros t Ht. apply filter_In in Ht. destruct Ht as [Ht Hc].
     rewrite <- wval_filter_pos, <- sum_filter_pos. apply wval_all_in.
     intros s Hs. apply filter_In in Hs. destruct Hs as [Hs Hp]. unfold counts_in.
     destruct (plain_tx_no_bound t (G1 t Ht)) as [Hb _]. rewrite (Hb s Hs). cbn [negb andb].
-    unfold Known_C13_expired_input in G6. fold txs in G6.
-    destruct (lo <=? s_bid s) eqn:E; [reflexivity|]. exfalso.
-    assert (existsb (fun t => negb (t_ty t =? TATR) && negb (t_ty t =? TFee) &&
-              existsb (fun s => (0 <? s_amt s) && negb (in_new_window cf b s)) (t_from t)) txs = true); [|congruence].
-    apply existsb_exists. exists t. split; auto.
-    destruct (plain_kinds t (G1 t Ht)) as [[_ [A B]]|[[A _]|[A _]]]; try congruence.
-    unfold is_ty in A, B. rewrite A, B. cbn [negb andb].
-    apply existsb_exists. exists s. split; auto. unfold pos in Hp. rewrite Hp. cbn [andb].
-    unfold in_new_window. fold gp lo. rewrite E. reflexivity. }
+    (* the age test of Transaction::validate *)
+    pose proof (Hvalid t Ht) as Hv. unfold tx_valid in Hv.
+    apply andb_prop in Hv. destruct Hv as [Hv _]. apply andb_prop in Hv. destruct Hv as [_ Hage].
+    rewrite user_tx_counts, Hc in Hage. cbn [andb] in Hage. apply negb_true_iff in Hage.
+    unfold too_old in Hage.
+    destruct (lo <=? s_bid s) eqn:E; [reflexivity|]. exfalso. apply N.leb_gt in E.
+    assert (existsb (fun s => aged s && (sadd (s_bid s) (cf_gp cf) <? tip_id st + 1)) (t_from t) = true); [|congruence].
+    apply existsb_exists. exists s. split; auto. unfold aged. unfold pos in Hp. rewrite Hp, (Hb s Hs). cbn [negb andb].
+    apply N.ltb_lt. pose proof (N.le_min_l (s_bid s + cf_gp cf) U64MAX) as Hsat. fold (sadd (s_bid s) (cf_gp cf)) in Hsat.
+    unfold lo, new_id in *. fold gp in Hsat |- *. fold gp in E. lia. }
   (* fees of the user transactions *)
   assert (Hfees : sumN (map (fun t => sumN (map s_amt (t_from t))) (filter counts_fee txs)) =
                   fees_new_of txs + sumN (map outs_sum (filter counts_fee txs))).
   { unfold fees_new_of.
     assert (forall l, (forall t, In t l -> In t txs /\ counts_fee t = true) ->
               sumN (map (fun t => sumN (map s_amt (t_from t))) l) = sumN (map total_fees l) + sumN (map outs_sum l)).
-    { induction l as [|t r IH]; intro Hl; [reflexivity|]. cbn [map]. rewrite !sumN_cons, IH by (intros; apply Hl; right; assumption).
+    { induction l as [|t r0 IH]; intro Hl; [reflexivity|]. cbn [map]. rewrite !sumN_cons, IH by (intros; apply Hl; right; assumption).
       destruct (Hl t (or_introl eq_refl)) as [Ht Hc].
       destruct (tx_totals t (G1 t Ht) (G9 t Ht)) as [Ti To].
       pose proof (Hvalid t Ht) as Hv. unfold tx_valid in Hv.
-      repeat (apply andb_prop in Hv; destruct Hv as [Hv ?]).
-      assert (Hu : user_tx t = true).
-      { unfold user_tx, utxo_checked. unfold counts_fee in Hc. apply orb_prop in Hc.
-        destruct Hc as [Hc|Hc]; apply N.eqb_eq in Hc; rewrite Hc; reflexivity. }
-      rewrite Hu in *. cbn [negb orb] in *.
-      match goal with H : (total_out t <=? total_in t) = true |- _ => apply N.leb_le in H; rename H into Hle end.
+      apply andb_prop in Hv. destruct Hv as [_ Hl0]. unfold tx_ledger in Hl0.
+      apply andb_prop in Hl0. destruct Hl0 as [Hle _].
+      rewrite user_tx_counts, Hc in Hle. cbn [negb orb] in Hle. apply N.leb_le in Hle.
       unfold total_fees. unfold outs_sum. rewrite <- Ti, <- To.
       destruct (total_out t <? total_in t) eqn:E; [apply N.ltb_lt in E | apply N.ltb_ge in E]; lia. }
     apply H. intros t Ht. apply filter_In in Ht. exact Ht. }
@@ -866,9 +851,9 @@ Proof.
       unfold counts_in. assert (Hlow : s_bid s < lo); [|assert ((lo <=? s_bid s) = false) by (apply N.leb_gt; exact Hlow); rewrite H0; apply andb_false_r].
       apply in_app_or in Hs. destruct Hs as [Hs|Hs].
       + assert (In s (inputs old)) by (unfold inputs; apply in_flat_map; eauto).
-        pose proof (Hinputs old s ltac:(rewrite <- Echain; exact Hoin) H0 ltac:(lia)). unfold lo, new_id. lia.
+        pose proof (Hinputs old s Hoin H0 ltac:(lia)). unfold lo, new_id. lia.
       + assert (In s (outputs old)) by (unfold outputs; apply in_flat_map; eauto).
-        destruct (located_outputs old (Hloc old ltac:(rewrite <- Echain; exact Hoin))) as [_ Hb].
+        destruct (located_outputs old (Hloc old Hoin)) as [_ Hb].
         rewrite (Hb s H0). unfold lo, new_id. lia.
     - intros x Hx. unfold u1 in Hx. apply (In_apply_txs txs u x Hsep) in Hx.
       destruct Hx as [[Hx _]|[_ Hx]]; [apply Hubid; exact Hx | exact Hx]. }
@@ -878,12 +863,11 @@ Proof.
   change (utxo_value gp (h_id (b_hdr b))) with (wval (h_id (b_hdr b) - gp)).
   rewrite Echain. change (h_id (b_hdr b) - gp) with lo. rewrite Hpurge. fold u.
   (* the window moves by one block *)
-  assert (HI2 : Inv st) by exact HI.
-  pose proof (window_shift cf st b HI2 G8 G2) as Hshift. fold gp u lo in Hshift.
+  pose proof (window_shift cf st b HI G8 G2) as Hshift. fold gp u lo in Hshift.
   rewrite <- Htid, Hshift.
   rewrite <- (expiring_is_atr_etxs cf st b). fold gp. fold (atr_items gp (slip_valid u) (the_input cf st b)). fold items.
   (* sum up *)
-  rewrite (sum_split_plain outs_sum txs) in Houtval by (apply forallb_forall; exact G1).
+  rewrite (sum_split_plain outs_sum txs) in Houtval by (try apply forallb_forall; assumption).
   unfold reservoirs.
   (* payout split *)
   assert (Hdue : fee_out_sum (c_fee_tx c) + c_pay_treasury c + c_pay_graveyard c + h_unpaid (b_hdr b)
@@ -895,10 +879,10 @@ Proof.
     destruct (c_gt_index c) as [gi|] eqn:Egi.
     - destruct (payouts_gt_inf _ _ _ _ _ Hpay) as [Hsum _].
       unfold due, miner_lost in Hsum. rewrite Hiprev, Hipp in Hsum.
-      unfold Known_C02_zero_miner in G5. unfold cv_inf, run_cv in G5. fold (the_input cf st b) gp u in G5. rewrite Hcv in G5.
+      destruct Hunp as [Hunp Hminer].
       assert (Hlost : (if o_miner (i_orc (the_input cf st b)) =? 0 then p_mining p else 0) = 0).
       { change (i_orc (the_input cf st b)) with (b_orc b).
-        destruct (o_miner (b_orc b) =? 0); [|reflexivity]. cbn [andb] in G5. apply N.ltb_ge in G5. lia. }
+        apply N.eqb_neq in Hminer. rewrite Hminer. reflexivity. }
       rewrite Hlost in Hsum. rewrite Cpt, Cpg, Cftx, Hunp.
       destruct rest as [|ppb rest'].
       + cbn [hd_error option_map] in Hsum. cbn [unpaid_ok] in Hunpaid. rewrite Hunpaid.
@@ -941,16 +925,41 @@ Proof.
   apply NoDup_delete_fold. exact H.
 Qed.
 
+Lemma last_index_exists : forall f l i acc,
+  match last_index f i l acc with
+  | Some _ => existsb f l = true \/ acc <> None
+  | None => existsb f l = false /\ acc = None
+  end.
+Proof.
+  intros f. induction l as [|t r IH]; intros i acc; cbn [last_index existsb].
+  - destruct acc; [right; discriminate | auto].
+  - specialize (IH (i + 1) (if f t then Some i else acc)).
+    destruct (last_index f (i + 1) r _).
+    + destruct (f t); [left; reflexivity|]. destruct IH as [IH|IH]; [left; rewrite IH; reflexivity | right; exact IH].
+    + destruct IH as [IH1 IH2]. destruct (f t); [discriminate|]. rewrite IH1. auto.
+Qed.
+
 Theorem inv_step : forall cap15 cap05 cf st b,
   Inv st -> located b ->
   validate_m cap15 cap05 cf MInf st b = Ok true ->
-  clean cap15 cap05 cf st b = true ->
+  clean cap05 cf st b = true ->
   Inv (wind cf st b).
 Proof.
   intros cap15 cap05 cf st b HI Hlocb Hval Hclean.
-  destruct (accepted_facts _ _ _ _ _ HI Hlocb Hval Hclean) as [Hid [Hins [Hubid [pb [rest [Echain Hunp]]]]]].
+  destruct (block_facts _ _ _ _ _ HI Hlocb Hval Hclean) as [c [pb [rest [r [p F]]]]].
+  pose proof (f_chain _ _ _ _ _ _ _ _ _ _ F) as Echain.
+  pose proof (f_id _ _ _ _ _ _ _ _ _ _ F) as Hid.
+  pose proof (f_tid _ _ _ _ _ _ _ _ _ _ F) as Htid.
+  pose proof (f_ins _ _ _ _ _ _ _ _ _ _ F) as Hins.
+  pose proof (f_ubid _ _ _ _ _ _ _ _ _ _ F) as Hubid.
+  pose proof (f_unpaid _ _ _ _ _ _ _ _ _ _ F) as Hunp0.
+  pose proof (f_gti _ _ _ _ _ _ _ _ _ _ F) as Cgti.
+  assert (Hunp : h_unpaid (b_hdr b) = if existsb (is_ty TGolden) (b_txs b) then 0 else h_total_fees (b_hdr pb)).
+  { rewrite Cgti in Hunp0. pose proof (last_index_exists (is_ty TGolden) (b_txs b) 0 None) as Hli.
+    destruct (last_index (is_ty TGolden) 0 (b_txs b) None).
+    - destruct Hli as [Hli|Hli]; [rewrite Hli; tauto | congruence].
+    - destruct Hli as [Hli _]. rewrite Hli. exact Hunp0. }
   destruct HI as [Hids Hnd Hutxo Hloc Hunpaid Hinputs].
-  assert (Htid : tip_id st = h_id (b_hdr pb)) by (unfold tip_id, tip; rewrite Echain; reflexivity).
   unfold new_id in Hid.
   destruct (located_outputs b Hlocb) as [_ Hbidout].
   constructor; unfold wind; cbn [st_chain st_utxo].
@@ -976,7 +985,7 @@ Inductive Reach (cap15 cap05 : N -> N) (cf : config) (g : block) : state -> Prop
 | reach_step : forall st b,
     Reach cap15 cap05 cf g st -> located b ->
     validate_m cap15 cap05 cf MInf st b = Ok true ->
-    clean cap15 cap05 cf st b = true ->
+    clean cap05 cf st b = true ->
     Reach cap15 cap05 cf g (wind cf st b).
 
 Definition genesis_ok (g : block) : Prop :=
@@ -1021,13 +1030,44 @@ Theorem no_overflow_mint : forall cap15 cap05 cf st b t,
   sumN (map s_amt (t_to t)) <= sumN (map s_amt (t_from t)).
 Proof.
   intros cap15 cap05 cf st b t Hval Ht Hu Hp Hf.
-  destruct (validate_inv _ _ _ _ _ Hval) as [c [_ [_ [_ [_ [_ [_ [_ [_ [_ Hsweep]]]]]]]]]].
-  destruct (vsweep_spec _ _ _ Hsweep (NoDup_nil _)) as [Hvalid _].
+  destruct (validate_inv _ _ _ _ _ Hval) as [c [_ [_ [_ [_ [_ [_ [_ [_ [_ [_ [_ Hsweep]]]]]]]]]]]].
+  destruct (vsweep_spec _ _ _ _ _ Hsweep (NoDup_nil _)) as [Hvalid _].
   pose proof (Hvalid t Ht) as Hv. unfold tx_valid in Hv.
-  repeat (apply andb_prop in Hv; destruct Hv as [Hv ?]).
-  rewrite Hu in *. cbn [negb orb] in *.
-  destruct (tx_totals t Hp Hf) as [Ti To].
-  match goal with H : (total_out t <=? total_in t) = true |- _ => apply N.leb_le in H; lia end.
+  apply andb_prop in Hv. destruct Hv as [_ Hl]. unfold tx_ledger in Hl.
+  apply andb_prop in Hl. destruct Hl as [Hle _].
+  rewrite Hu in Hle. cbn [negb orb] in Hle. apply N.leb_le in Hle.
+  destruct (tx_totals t Hp Hf) as [Ti To]. lia.
+Qed.
+
+(* the wrap-around clause: whatever the outputs are (their sum may exceed 2^64, where the code's
+   sums saturate), an accepted user transaction whose inputs sum to less than 2^64-1 pays out
+   no more than it consumes *)
+Lemma sat_fold_min : forall l acc, acc <= U64MAX -> fold_left sat_add l acc = N.min (acc + sumN l) U64MAX.
+Proof.
+  induction l as [|x r IH]; intros acc H; cbn [fold_left].
+  - rewrite sumN_nil, N.add_0_r. symmetry. apply N.min_l. exact H.
+  - rewrite IH by (unfold sat_add; apply N.le_min_r). rewrite sumN_cons. unfold sat_add.
+    generalize U64MAX. intro M. lia.
+Qed.
+Lemma sat_sum_min : forall l, sat_sum l = N.min (sumN l) U64MAX.
+Proof. intro l. unfold sat_sum. rewrite sat_fold_min by apply N.le_0_l. reflexivity. Qed.
+
+Theorem no_overflow_mint_any_outputs : forall cap15 cap05 cf st b t,
+  validate_m cap15 cap05 cf MInf st b = Ok true ->
+  In t (b_txs b) -> user_tx t = true -> plain_tx t = true ->
+  sumN (map s_amt (t_from t)) < U64MAX ->
+  sumN (map s_amt (t_to t)) <= sumN (map s_amt (t_from t)).
+Proof.
+  intros cap15 cap05 cf st b t Hval Ht Hu Hp Hin.
+  destruct (validate_inv _ _ _ _ _ Hval) as [c [_ [_ [_ [_ [_ [_ [_ [_ [_ [_ [_ Hsweep]]]]]]]]]]]].
+  destruct (vsweep_spec _ _ _ _ _ Hsweep (NoDup_nil _)) as [Hvalid _].
+  pose proof (Hvalid t Ht) as Hv. unfold tx_valid in Hv.
+  apply andb_prop in Hv. destruct Hv as [_ Hl]. unfold tx_ledger in Hl.
+  apply andb_prop in Hl. destruct Hl as [Hle _].
+  rewrite Hu in Hle. cbn [negb orb] in Hle. apply N.leb_le in Hle.
+  destruct (plain_tx_no_bound t Hp) as [Hb1 Hb2].
+  unfold total_in, total_out in Hle. rewrite (counted_no_bound _ Hb1), (counted_no_bound _ Hb2) in Hle.
+  rewrite !sat_sum_min in Hle. revert Hle Hin. generalize U64MAX. intros M Hle Hin. lia.
 Qed.
 
 (* ---------- the node's own check ---------- *)
